@@ -394,6 +394,15 @@ fn convert_expr(ctx: &mut ResolveContext, e_id: ExprNodeId) -> ExprNodeId {
             Expr::Let(pat, new_body, new_then).into_id(loc)
         }
         Expr::Lambda(params, r_type, body) => {
+            // Default values are compiled as functions of their own: resolve the
+            // names in them (e.g. the operators of `b = 1.0 + 2.0`) as well.
+            let params: Vec<_> = params
+                .into_iter()
+                .map(|mut param| {
+                    param.default_value = param.default_value.map(|d| convert_expr(ctx, d));
+                    param
+                })
+                .collect();
             ctx.push_scope();
             for param in &params {
                 ctx.bind_local(param.id);
